@@ -4,6 +4,8 @@ extern crate gluon_vm;
 mod common;
 mod conc;
 mod heap;
+mod lang;
+mod bytecode;
 mod host;
 
 use common::*;
@@ -26,6 +28,7 @@ fn cmd_run(args: &[String]) {
     }
     let src = std::fs::read_to_string(file.expect("file")).unwrap();
     let vm = new_vm(&s);
+    host::install(&vm);
     match run_any(&vm, "probe", &src) {
         Ok((v, t)) => println!("OK {} : {}", v, t),
         Err(e) => println!("ERR {}", e),
@@ -89,6 +92,7 @@ fn main() {
         "dropctx" => heap::probe_drop(),
         "conc" => conc::cmd(rest),
         "heap" => heap::cmd(rest),
+        "lang" => lang::cmd(rest),
         _ => usage(),
     }
 }
